@@ -5,7 +5,7 @@
    shape the harness confirms in `head`), onewrite = the record was exactly one Write, and
      mode "struct"  : chain, site (scenario exported by TLC, with key / value / name bytes)
      mode "values"  : kind, where, source
-     mode "strings" : in (input bytes), pos (msg | key | value | with | group)
+     mode "strings" : in (input bytes), pos (msg | key | value | with | group | group2 | sgroup | gkey)
    Verdict: Tokenize(tail) - the independent tokenizer of TextLine.tla - yields exactly the tokens the
    statement prescribes, every part unquoted to the original bytes. *)
 (***************************************************************************)
@@ -59,7 +59,9 @@ StringsOK(c) ==
   Tokenize(c.tail) =
     CASE c.pos = "msg"   -> << <<<<109, 115, 103>>, c.in>> >>
       [] c.pos = "key"   -> <<MsgM, <<c.in, V1>>>>
-      [] c.pos = "group" -> <<MsgM, <<c.in \o <<46>> \o K1, V1>>>>
+      [] c.pos \in {"group", "sgroup"} -> <<MsgM, <<c.in \o <<46>> \o K1, V1>>>>
+      [] c.pos = "group2" -> <<MsgM, <<c.in \o <<46, 122, 46>> \o K1, V1>>>>          \* <in>.z.k
+      [] c.pos = "gkey"  -> <<MsgM, <<<<122, 46>> \o c.in, V1>>>>                      \* z.<in>
       [] OTHER           -> <<MsgM, <<K1, c.in>>>>
 
 JudgeOK == LET c == Cases[i] IN
